@@ -63,6 +63,13 @@ def w_basis(ctx, rng, idx):
     x2 = gen.data_matrix(rng, (d, m2))
     call('transform.gram', tr.gram, x, x2, bl, prop=P)
     call('transform.gram', tr.gram, x, x, bl, prop=P)
+    if m >= 2:
+        # two equally shaped data sets that are views into ONE buffer (time-lagged slices of a trajectory, two halves of a data set):
+        # they alias memory but have different contents
+        lag = int(rng.integers(1, m))
+        call('transform.gram', tr.gram, x[:, :-lag], x[:, lag:], bl, prop=P, tags=['views_of_one_buffer'])
+        big = np.concatenate([x, gen.data_matrix(rng, (d, m))], axis=1)
+        call('transform.gram', tr.gram, big[:, :m], big[:, m:], bl, prop=P, tags=['views_of_one_buffer'])
     if idx < 3:
         ctx.sample({'workload': 'basis', 'state_dim': d, 'snapshots': m, 'modes': [[type(f).__name__ for f in fl] for fl in bl]})
 
